@@ -184,6 +184,10 @@ pub struct ScriptWriter {
     pub piece_idx: usize,
     pub pending_64: u32,
     pub fail_at: Option<(usize, io::ErrorKind)>,
+    /// The fault is transient: it is reported once (when `fail_at` bytes have been accepted)
+    /// and the sink then goes on accepting - what EINTR looks like to a caller.
+    pub transient: bool,
+    pub transient_fired: bool,
     pub flush_pending_64: u32,
     pub writes: u64,
     pub flushes: u64,
@@ -199,6 +203,8 @@ impl ScriptWriter {
             piece_idx: 0,
             pending_64: 0,
             fail_at: None,
+            transient: false,
+            transient_fired: false,
             flush_pending_64: 0,
             writes: 0,
             flushes: 0,
@@ -215,7 +221,8 @@ impl AsyncWrite for ScriptWriter {
         }
         if self.failed {
             self.writes_after_failure += 1;
-            return Poll::Ready(Err(io::Error::new(io::ErrorKind::BrokenPipe, "write after failure")));
+            let kind = self.fail_at.map(|f| f.1).unwrap_or(io::ErrorKind::BrokenPipe);
+            return Poll::Ready(Err(io::Error::new(kind, "write after failure")));
         }
         if self.pending_64 > 0 && with(|w| w.tape.ratio(self.pending_64, 64)) {
             cx.waker().wake_by_ref();
@@ -224,12 +231,23 @@ impl AsyncWrite for ScriptWriter {
         self.writes += 1;
         let mut lim = buf.len();
         if let Some((at, kind)) = self.fail_at {
-            if self.out.len() >= at {
-                self.failed = true;
-                with(|w| w.count("fault.writer_error"));
-                return Poll::Ready(Err(io::Error::new(kind, "simulated write error")));
+            if self.transient {
+                if !self.transient_fired {
+                    if self.out.len() >= at {
+                        self.transient_fired = true;
+                        with(|w| w.count("fault.writer_error_transient"));
+                        return Poll::Ready(Err(io::Error::new(kind, "simulated transient write error")));
+                    }
+                    lim = lim.min(at - self.out.len());
+                }
+            } else {
+                if self.out.len() >= at {
+                    self.failed = true;
+                    with(|w| w.count("fault.writer_error"));
+                    return Poll::Ready(Err(io::Error::new(kind, "simulated write error")));
+                }
+                lim = lim.min(at - self.out.len());
             }
-            lim = lim.min(at - self.out.len());
         }
         let want = match &self.accept {
             Pieces::Whole => lim,
